@@ -24,3 +24,16 @@ var (
 	exact       = runop.Exact
 	atoi        = runop.Atoi
 )
+
+type (
+	attrIn = runop.AttrIn
+	txOp   = runop.TxOp
+)
+
+var (
+	parseTxsig = runop.ParseTxsig
+	buildTx    = runop.BuildTx
+	unsignedOf = runop.UnsignedOf
+	execTxsig  = runop.ExecTxsig
+	txsigLine  = runop.TxsigLine
+)
